@@ -1314,7 +1314,7 @@ ADVANCE_TO_APP_DATA:
 #ifdef USE_DTLS
         if (ACTV_VER(ssl, v_dtls_any))
         {
-            if (ssl->hsState != SSL_HS_FINISHED
+            if ((ssl->hsState != SSL_HS_FINISHED
 #  ifdef USE_STATELESS_SESSION_TICKETS
                 /* ... unless this is the first sign that the server accepted
                    the session ticket we offered (RFC 5077 3.2: it need not
@@ -1324,6 +1324,13 @@ ADVANCE_TO_APP_DATA:
                      ssl->sid->sessionTicketState == SESS_TICKET_STATE_IN_LIMBO &&
                      (ssl->hsState == SSL_HS_CERTIFICATE ||
                       ssl->hsState == SSL_HS_SERVER_KEY_EXCHANGE))
+#  endif
+                )
+#  ifdef USE_STATELESS_SESSION_TICKETS
+                /* The NewSessionTicket the server announced is still
+                   outstanding: this CCS overtook it */
+                || (!(ssl->flags & SSL_FLAGS_SERVER) && ssl->sid != NULL &&
+                    ssl->sid->sessionTicketState == SESS_TICKET_STATE_RECVD_EXT)
 #  endif
                 )
             {
@@ -1356,6 +1363,17 @@ ADVANCE_TO_APP_DATA:
  */
         if (ssl->hsState == SSL_HS_FINISHED)
         {
+#ifdef USE_STATELESS_SESSION_TICKETS
+            /* A server that answered our SessionTicket extension must send
+               NewSessionTicket (possibly empty) before its CCS, RFC 5077 3.3 */
+            if (!(ssl->flags & SSL_FLAGS_SERVER) && ssl->sid != NULL &&
+                ssl->sid->sessionTicketState == SESS_TICKET_STATE_RECVD_EXT)
+            {
+                ssl->err = SSL_ALERT_UNEXPECTED_MESSAGE;
+                psTraceErrr("CCS in place of the announced NewSessionTicket\n");
+                goto encodeResponse;
+            }
+#endif
             if (sslActivateReadCipher(ssl) < 0)
             {
                 ssl->err = SSL_ALERT_INTERNAL_ERROR;
